@@ -232,9 +232,23 @@ def rule_ext(ctx, px):
     ja = px.cls("nunavut.jinja.extensions", "JinjaAssert")
     parse = ja.methods["parse"]
     rets = [r for r in ast.walk(parse.node) if isinstance(r, ast.Return)]
-    ok = len(rets) == 1 and "nodes.CallBlock(self.call_method('_do_assert', args), [], [], '')" in ast.unparse(rets[0].value)
+    pparam = [a.arg for a in parse.node.args.args if a.arg != "self"][0]
+    cb = [c for r in rets for c in ast.walk(r.value) if isinstance(c, ast.Call) and ast.unparse(c.func).endswith("CallBlock")]
+    ok = len(rets) == 1 and len(cb) == 1 and len(cb[0].args) >= 3
+    args_name = None
+    if ok:
+        c0 = cb[0].args[0]
+        ok = isinstance(c0, ast.Call) and ast.unparse(c0.func) == "self.call_method" and len(c0.args) == 2 and isinstance(c0.args[0], ast.Constant) \
+            and c0.args[0].value == "_do_assert" and isinstance(c0.args[1], ast.Name) \
+            and all(isinstance(x, (ast.List, ast.Tuple)) and not x.elts for x in cb[0].args[1:3])
+        if ok:
+            args_name = c0.args[1].id
     ctx.ob(R, m.rel, "JinjaAssert.parse :: returns an empty CallBlock bound to _do_assert", ok, "" if ok else ast.unparse(rets[0].value) if rets else "no return", parse.node.lineno)
     da = ja.methods["_do_assert"]
+    dps = [a.arg for a in da.node.args.args if a.arg != "self"]
+    if len(dps) < 3:
+        raise AnalysisError("anchor changed: JinjaAssert._do_assert(expression, message, caller)")
+    d_expr, d_caller = dps[0], dps[-1]
     raises = []
     returns = []
     for st, g in pyfront.walk_guarded(da.node.body):
@@ -242,43 +256,80 @@ def rule_ext(ctx, px):
             raises.append(pyfront.guard_terms(g))
         if isinstance(st, ast.Return):
             returns.append((ast.unparse(st.value) if st.value else "None", pyfront.guard_terms(g)))
-    ok = raises == [[("expression", False)]]
+    ok = raises == [[(d_expr, False)]]
     ctx.ob(R, m.rel, "JinjaAssert._do_assert :: raises exactly when the expression is falsy", ok, f"raise guards: {raises}", da.node.lineno)
-    ok = any(v == "caller()" and (t == [] or t == [("expression", True)]) for v, t in returns)
+    ok = any(v == f"{d_caller}()" and (t == [] or t == [(d_expr, True)]) for v, t in returns)
     ctx.ob(R, m.rel, "JinjaAssert._do_assert :: otherwise returns caller()", ok, f"returns: {returns}", da.node.lineno)
     first_arg = None
     for n in ast.walk(parse.node):
-        if isinstance(n, ast.Assign) and ast.unparse(n.targets[0]) == "args" and isinstance(n.value, ast.List) and n.value.elts:
+        if isinstance(n, ast.Assign) and isinstance(n.targets[0], ast.Name) and n.targets[0].id == args_name and isinstance(n.value, ast.List) and n.value.elts:
             first_arg = ast.unparse(n.value.elts[0])
-    ctx.ob(R, m.rel, "JinjaAssert.parse :: the asserted value is the parsed expression", first_arg == "parser.parse_expression()", str(first_arg), parse.node.lineno)
+    ctx.ob(R, m.rel, "JinjaAssert.parse :: the asserted value is the parsed expression", first_arg == f"{pparam}.parse_expression()", str(first_arg), parse.node.lineno)
     uq = px.cls("nunavut.jinja.extensions", "UseQuery")
     up = uq.methods["parse"]
-    src = ast.unparse(up.node)
-    ok = "nodes.If(" in src and "node.test = self.call_method(test_name, args)" in src
+    uparam = [a.arg for a in up.node.args.args if a.arg != "self"][0]
+    tests = [n for n in ast.walk(up.node) if isinstance(n, ast.Assign) and any(isinstance(t, ast.Attribute) and t.attr == "test" for t in n.targets)]
+    ifs = [c for c in ast.walk(up.node) if isinstance(c, ast.Call) and ast.unparse(c.func).endswith("nodes.If")]
+    ok = bool(ifs) and len(tests) == 1 and isinstance(tests[0].value, ast.Call) and ast.unparse(tests[0].value.func) == "self.call_method" \
+        and len(tests[0].value.args) == 2 and all(isinstance(a, ast.Name) for a in tests[0].value.args)
     ctx.ob(R, m.rel, "UseQuery.parse :: builds nodes.If with the query call as test", ok, "", up.node.lineno)
-    ok = "test_name = '_use_query' if not negate else '_use_nquery'" in src
-    ctx.ob(R, m.rel, "UseQuery.parse :: negated form selects _use_nquery", ok, "", up.node.lineno)
+    negate = None
+    ok2 = False
+    if ok:
+        tname, aname = (a.id for a in tests[0].value.args)
+        tvals = [n.value for n in ast.walk(up.node) if isinstance(n, ast.Assign) and any(isinstance(t, ast.Name) and t.id == tname for t in n.targets)]
+        if len(tvals) == 1 and isinstance(tvals[0], ast.IfExp):
+            ie = tvals[0]
+            body = ie.body.value if isinstance(ie.body, ast.Constant) else None
+            orelse = ie.orelse.value if isinstance(ie.orelse, ast.Constant) else None
+            if isinstance(ie.test, ast.UnaryOp) and isinstance(ie.test.op, ast.Not) and isinstance(ie.test.operand, ast.Name):
+                negate = ie.test.operand.id
+                ok2 = (body, orelse) == ("_use_query", "_use_nquery")
+            elif isinstance(ie.test, ast.Name):
+                negate = ie.test.id
+                ok2 = (body, orelse) == ("_use_nquery", "_use_query")
+        avals = [n.value for n in ast.walk(up.node) if isinstance(n, ast.Assign) and any(isinstance(t, ast.Name) and t.id == aname for t in n.targets)]
+        ok3 = len(avals) == 1 and isinstance(avals[0], ast.List) and avals[0].elts and ast.unparse(avals[0].elts[0]) == f"{uparam}.parse_expression()"
+        ctx.ob(R, m.rel, "UseQuery.parse :: the query name is the parsed expression", ok3, "", up.node.lineno)
+    ctx.ob(R, m.rel, "UseQuery.parse :: negated form selects _use_nquery", ok2, "", up.node.lineno)
     # negate state per tag
     tags = {}
     for st, g in pyfront.walk_guarded(up.node.body):
-        if isinstance(st, ast.Assign) and ast.unparse(st.targets[0]) == "negate":
+        if isinstance(st, ast.Assign) and isinstance(st.targets[0], ast.Name) and st.targets[0].id == negate:
             tags.setdefault(ast.unparse(st.value), []).extend(e for e, p in pyfront.guard_terms(g) if p)
     ok = any("ifnuses" in e for e in tags.get("True", [])) and any("elifnuses" in e for e in tags.get("True", [])) \
         and any("elifuses" in e for e in tags.get("False", []))
     ctx.ob(R, m.rel, "UseQuery.parse :: ifnuses/elifnuses negate, ifuses/elifuses do not", ok, str(tags), up.node.lineno)
     rets = [r for r in ast.walk(up.node) if isinstance(r, ast.Return)]
-    ok = len(rets) == 1 and ast.unparse(rets[0].value) == "result"
+    ok = len(rets) == 1 and isinstance(rets[0].value, ast.Name)
+    if ok:
+        rn_ = rets[0].value.id
+        first_if = any(isinstance(n, ast.Assign) and any(isinstance(t, ast.Name) and t.id == rn_ for t in n.targets) and isinstance(n.value, ast.Call)
+                       and ast.unparse(n.value.func).endswith("nodes.If") for n in ast.walk(up.node))
+        chained = any(isinstance(c, ast.Call) and ast.unparse(c.func) == f"{rn_}.elif_.append" for c in ast.walk(up.node))
+        ok = first_if and chained
     ctx.ob(R, m.rel, "UseQuery.parse :: returns the If chain", ok, "", up.node.lineno)
     q = uq.methods["_use_query"]
     nq = uq.methods["_use_nquery"]
-    rq = [ast.unparse(r.value) for r in ast.walk(q.node) if isinstance(r, ast.Return)]
-    rn = [ast.unparse(r.value) for r in ast.walk(nq.node) if isinstance(r, ast.Return)]
-    ok = rq == ["self._use_query_common(uses_query_name, lineno, name, filename)"] and rn == ["not self._use_query_common(uses_query_name, lineno, name, filename)"]
-    ctx.ob(R, m.rel, "UseQuery :: _use_nquery is exactly the negation of _use_query", ok, f"{rq} / {rn}", q.node.lineno)
+
+    def passthrough(fn, e):
+        ps_ = [a.arg for a in fn.node.args.args if a.arg != "self"]
+        return isinstance(e, ast.Call) and ast.unparse(e.func) == "self._use_query_common" and [ast.unparse(a) for a in e.args] == ps_ and not e.keywords
+
+    rq = [r.value for r in ast.walk(q.node) if isinstance(r, ast.Return)]
+    rn = [r.value for r in ast.walk(nq.node) if isinstance(r, ast.Return)]
+    ok = len(rq) == 1 and passthrough(q, rq[0]) and len(rn) == 1 and isinstance(rn[0], ast.UnaryOp) and isinstance(rn[0].op, ast.Not) and passthrough(nq, rn[0].operand)
+    ctx.ob(R, m.rel, "UseQuery :: _use_nquery is exactly the negation of _use_query", ok, f"{[ast.unparse(x) for x in rq]} / {[ast.unparse(x) for x in rn]}", q.node.lineno)
     common = uq.methods["_use_query_common"]
-    rc = [ast.unparse(r.value) for r in ast.walk(common.node) if isinstance(r, ast.Return)]
-    ok = rc == ["uses_query()"]
-    ctx.ob(R, m.rel, "UseQuery._use_query_common :: value is the language's uses-query result", ok, str(rc), common.node.lineno)
+    cps = [a.arg for a in common.node.args.args if a.arg != "self"]
+    rc = [r.value for r in ast.walk(common.node) if isinstance(r, ast.Return)]
+    ok = len(rc) == 1 and isinstance(rc[0], ast.Call) and isinstance(rc[0].func, ast.Name) and not rc[0].args
+    if ok:
+        src_vals = [n.value for n in ast.walk(common.node) if isinstance(n, ast.Assign) and any(isinstance(t, ast.Name) and t.id == rc[0].func.id for t in n.targets)]
+        ok = len(src_vals) == 1 and any(isinstance(c, ast.Call) and isinstance(c.func, ast.Name) and c.func.id == "getattr" and len(c.args) >= 2
+                                        and "target_language_uses_queries" in ast.unparse(c.args[0]) and ast.unparse(c.args[1]) == cps[0]
+                                        for c in ast.walk(src_vals[0]))
+    ctx.ob(R, m.rel, "UseQuery._use_query_common :: value is the language's uses-query result", ok, str([ast.unparse(x) for x in rc]), common.node.lineno)
     # the environment installs exactly do/loopcontrols + these two
     envb = px.cls("nunavut.jinja.environment", "CodeGenEnvironmentBuilder")
     dflt = None
